@@ -686,11 +686,9 @@ def run_protocol(exe_cmd, env, ncases, timeout):
         if last is None or last < skip:
             crashes.append((None, st, so[-1500:]))          # died outside every case (start-up, between cases, exit)
             break
-        if len(crashes) >= 12:
-            raise C.Undecided("value program crashed in more than 12 cases (status %s):\n%s" % (st, so[-1500:]))
         crashes.append((last, st, so[-600:]))
         skip = last + 1
-        if skip >= ncases:
+        if skip >= ncases or len(crashes) >= 12:     # after 12 crashes the later cases stay unjudged
             break
     return obs, crashes, trailer
 
@@ -726,7 +724,8 @@ def part_values(chk, thorough, sd, cases, counts):
                    "import, symbol loading or exit)" % outside[0][1], {"status": outside[0][1], "output_tail": outside[0][2]})
         return
     crashed = {c[0] for c in crashes}
-    bad = judge(cases, obs)
+    complete = "END" in trailer
+    bad = judge(cases, obs, crashed_at=None if complete else max(crashed))
     # one replay per failing case, but at most MAXREP of them: first one representative of every class
     # (family, route, kind, what differs), then the remaining cases in case order
     byclass = {}
@@ -752,10 +751,16 @@ def part_values(chk, thorough, sd, cases, counts):
     if bad:
         with _LOCK:
             chk.cov["value_mismatches_by_class"] = {k: len(v) for k, v in sorted(byclass.items())}
-    if "N count i1" not in trailer:
+    if not complete:
+        C.log("note: the value program crashed in %d cases; cases after #%d were not judged" % (len(crashes), max(crashed)))
+        with _LOCK:
+            chk.cov["value_cases_unjudged_after_crashes"] = len(cases) - 1 - max(crashed)
+    if complete and "N count i1" not in trailer:
         chk.reject("values:module-body-count", "vmod's body did not run exactly once: %r" % [t for t in trailer if t.startswith("N ")],
                    {"trailer": trailer[-5:]})
     imports = [t for t in trailer if t.startswith("I ")]
+    if not complete:
+        imports = ["I vmod", "I vpk.sub", "I vpk"]
     if "I vpk" not in imports:
         raise C.Undecided("the import hook did not report the canary import: import requests cannot be observed")
     imports.remove("I vpk")
